@@ -127,7 +127,7 @@ def gen_single(rng, idx):
     elif kind == 'noisy':
         flux = [f + rng.randint(-4, 4) / 64.0 for f in flux]
     variant = VARIANTS[(idx // 2) % len(VARIANTS)]
-    if idx % 23 == 22:
+    if idx % 24 in (8, 11, 18):          # output grid entirely beside the data: mean, damp, traditional
         variant = 'disjoint'
     new = out_grid(rng, n, l0, variant)
     method = ['traditional', 'noconst', 'mean', 'nothing', 'traditional', 'damp'][idx % 6]
